@@ -208,11 +208,13 @@ You can provide input either as a file (as the first argument) or by piping logs
 					os.Exit(1)
 				}
 				// Always clean up downloaded log files, even if redaction fails
-				defer func() {
+				// (os.Exit does not run deferred functions, so the error paths below call it explicitly)
+				cleanupLogs := func() {
 					if delErr := client.DeleteClusterLogs(cmd.Context(), files); delErr != nil {
 						fmt.Fprintf(os.Stderr, "Error cleaning up Atlas log files: %v\n", delErr)
 					}
-				}()
+				}
+				defer cleanupLogs()
 				fileReader := &DefaultFileReader{}
 				for i, file := range files {
 					// Compose output file path with serial integer
@@ -220,6 +222,7 @@ You can provide input either as a file (as the first argument) or by piping logs
 					outWriter, err := os.Create(outPath)
 					if err != nil {
 						fmt.Fprintf(os.Stderr, "Error opening output file %s: %v\n", outPath, err)
+						cleanupLogs()
 						os.Exit(1)
 					}
 					defer outWriter.Close()
@@ -228,6 +231,7 @@ You can provide input either as a file (as the first argument) or by piping logs
 					totalLines, err := countLines(fileReader, file)
 					if err != nil {
 						fmt.Fprintf(os.Stderr, "Error counting lines in %s: %v\n", file, err)
+						cleanupLogs()
 						os.Exit(1)
 					}
 					bar = progressbar.NewOptions64(int64(totalLines),
@@ -256,6 +260,7 @@ You can provide input either as a file (as the first argument) or by piping logs
 					if err := ProcessMongoLogFile(fileReader, file, outWriter, bar); err != nil {
 						fmt.Fprintf(os.Stderr, "Error processing log file %s: %v\n", file, err)
 						outWriter.Close()
+						cleanupLogs()
 						os.Exit(1)
 					}
 					outWriter.Close()
